@@ -67,6 +67,9 @@ uint8_t vf_atomic_load_8(uint8_t* p) {
   }
   return reinterpret_cast<std::atomic<uint8_t>*>(p)->load();
 }
+// weak compare-exchange: same budgeted spurious failure as engine/vf_rt.h
+static unsigned g_spurious_budget = 1;
+bool vf_native_spurious(int weak) { if (weak && g_spurious_budget > 0 && (vf_nondet_u8() & 1)) { g_spurious_budget--; return true; } return false; }
 void VF_ENTRY();
 }
 int main() {
